@@ -163,18 +163,19 @@ theorem pipeLoop_refines : ∀ (fuel : Nat) (r : R σ) (acc : Bytes), Inv r → 
 
 /-- **`pipe()`** hands out exactly what is still to come and leaves the reader at its end -/
 theorem pipe_refines (r : R σ) (hinv : Inv r) (hpl : r.pos ≤ r.len) :
-    (pipe r).1 = abs r ∧ abs (pipe r).2 = [] ∧ Inv (pipe r).2 ∧ (pipe r).2.pos ≤ (pipe r).2.len := by
+    (pipe r).1 = abs r ∧ abs (pipe r).2 = [] ∧ Inv (pipe r).2 ∧ (pipe r).2.pos ≤ (pipe r).2.len ∧
+      (pipe r).2.chunk = r.chunk := by
   have hb : (abs r).length < Source.bound r.src + r.buf.length + 3 := by
     rw [abs_eq r hinv hpl, List.length_append, List.length_drop]
     have := avail_length_le r
     omega
-  obtain ⟨a, b, c, d, _⟩ := pipeLoop_refines _ r [] hinv hpl hb
+  obtain ⟨a, b, c, d, e⟩ := pipeLoop_refines _ r [] hinv hpl hb
   unfold pipe
-  exact ⟨by rw [a]; simp, b, c, d⟩
+  exact ⟨by rw [a]; simp, b, c, d, e⟩
 
 /-- **`exhaust()`** leaves nothing to read -/
 theorem exhaust_refines (r : R σ) (hinv : Inv r) (hpl : r.pos ≤ r.len) :
-    abs (exhaust r) = [] ∧ Inv (exhaust r) ∧ (exhaust r).pos ≤ (exhaust r).len :=
+    abs (exhaust r) = [] ∧ Inv (exhaust r) ∧ (exhaust r).pos ≤ (exhaust r).len ∧ (exhaust r).chunk = r.chunk :=
   (pipe_refines r hinv hpl).2
 end Rd
 
@@ -380,6 +381,16 @@ theorem pipeUntil_consume_eq (r : R σ) (d : Bytes) (size : Option Int) (hinv : 
   · unfold pipeUntil; simp only [e1]; rfl
   · unfold pipeUntil tailPeek; simp only [e1]; rfl
 
+/-- the tail never changes the chunk size -/
+theorem tailPeek_chunk (r0 : R σ) (d ret : Bytes) (hinv : Inv r0) (hpl : r0.pos ≤ r0.len) :
+    (tailPeek r0 d ret).2.chunk = r0.chunk := by
+  have hc := (peek_refines r0 (d.length : Int) hinv hpl).2.2.2.2
+  unfold tailPeek
+  rcases hp : peek r0 (d.length : Int) with ⟨p, r1⟩
+  rw [hp] at hc
+  simp only at hc ⊢
+  split <;> exact hc
+
 /-- **`pipe_until(d, consume_delimiter=True)`**: writes the same bytes; steps over the delimiter iff the cursor is then at
     it, otherwise raises `DelimiterError` with the cursor left just behind what was written -/
 theorem pipeUntil_consume_refines (r : R σ) (d : Bytes) (size : Option Int) (hinv : Inv r) (hpl : r.pos ≤ r.len)
@@ -387,9 +398,10 @@ theorem pipeUntil_consume_refines (r : R σ) (d : Bytes) (size : Option Int) (hi
     let k := stopAt d (abs r) (want (abs r) size)
     let out := pipeUntil r d true size
     ((((abs r).drop k).take d.length = d) →
-      out.1 = .ok ((abs r).take k) ∧ abs out.2 = (abs r).drop (k + d.length) ∧ Inv out.2 ∧ out.2.pos ≤ out.2.len) ∧
+      out.1 = .ok ((abs r).take k) ∧ abs out.2 = (abs r).drop (k + d.length) ∧ Inv out.2 ∧ out.2.pos ≤ out.2.len ∧
+        out.2.chunk = r.chunk) ∧
     ((((abs r).drop k).take d.length ≠ d) →
-      out.1 = .delimErr ∧ abs out.2 = (abs r).drop k ∧ Inv out.2 ∧ out.2.pos ≤ out.2.len) := by
+      out.1 = .delimErr ∧ abs out.2 = (abs r).drop k ∧ Inv out.2 ∧ out.2.pos ≤ out.2.len ∧ out.2.chunk = r.chunk) := by
   intro k out
   obtain ⟨r1, e1, e2, e3, e4, e5⟩ := pipeUntil_loop r d size hinv hpl hs hd hdc
   obtain ⟨r1', g1, g2⟩ := pipeUntil_consume_eq r d size hinv hpl hs hd hdc
@@ -398,14 +410,16 @@ theorem pipeUntil_consume_refines (r : R σ) (d : Bytes) (size : Option Int) (hi
     rw [g1] at h1; exact (Prod.mk.inj h1).2
   subst hr
   have hsp := tailPeek_spec r1' d ((abs r).take k) e3 e4 (by rw [e5]; exact hdc)
+  have hch := (tailPeek_chunk r1' d ((abs r).take k) e3 e4).trans e5
   simp only [out, g2]
   rw [e2] at hsp
   constructor
   · intro h
     obtain ⟨a, b, c, dd⟩ := hsp.1 h
-    exact ⟨a, by rw [b, List.drop_drop], c, dd⟩
+    exact ⟨a, by rw [b, List.drop_drop], c, dd, hch⟩
   · intro h
-    exact hsp.2 h
+    obtain ⟨a, b, c, dd⟩ := hsp.2 h
+    exact ⟨a, b, c, dd, hch⟩
 
 /-- **`read_until(d, size)`**, delimiter not consumed, *both* branches (the in-memory join below 128 chunks and the switch to
     `pipe_until` above): returns the text up to the first occurrence of the delimiter / `size` bytes / the end -/
@@ -545,35 +559,35 @@ def specLines : Nat → Bytes → Int → Int → List Bytes → List Bytes × B
 /-- the `while True` loop of `readlines` computes `specLines` of the text still to come -/
 theorem readlinesLoop_refines : ∀ (fuel : Nat) (r : R σ) (hint nread : Int) (acc : List Bytes), Inv r → r.pos ≤ r.len →
     ∃ r', readlinesLoop fuel r hint nread acc = (some (specLines fuel (abs r) hint nread acc).1, r') ∧
-      abs r' = (specLines fuel (abs r) hint nread acc).2 ∧ Inv r' ∧ r'.pos ≤ r'.len := by
+      abs r' = (specLines fuel (abs r) hint nread acc).2 ∧ Inv r' ∧ r'.pos ≤ r'.len ∧ r'.chunk = r.chunk := by
   intro fuel
   induction fuel with
-  | zero => intro r hint nread acc hinv hpl; exact ⟨r, rfl, rfl, hinv, hpl⟩
+  | zero => intro r hint nread acc hinv hpl; exact ⟨r, rfl, rfl, hinv, hpl, rfl⟩
   | succ n ih =>
     intro r hint nread acc hinv hpl
-    obtain ⟨r1, e1, e2, e3, e4, _⟩ := readline_refines r (some (-1)) hinv hpl (fun s h => by cases h; left; rfl)
+    obtain ⟨r1, e1, e2, e3, e4, e5⟩ := readline_refines r (some (-1)) hinv hpl (fun s h => by cases h; left; rfl)
     have hw : want (abs r) (some (-1)) = (abs r).length := by unfold want; simp
     rw [hw] at e1 e2
     unfold readlinesLoop specLines
     simp only [e1]
     by_cases hemp : ((abs r).take (lineStop (abs r) (abs r).length)).isEmpty = true
     · simp only [hemp, if_true]
-      exact ⟨r1, rfl, e2, e3, e4⟩
+      exact ⟨r1, rfl, e2, e3, e4, e5⟩
     · have hemp' : ((abs r).take (lineStop (abs r) (abs r).length)).isEmpty = false := by simpa using hemp
       simp only [hemp', Bool.false_eq_true, if_false]
       by_cases hh : hint ≥ 0
       · simp only [hh, if_true]
         by_cases hr : nread + ((abs r).take (lineStop (abs r) (abs r).length)).length ≥ hint
         · simp only [hr, if_true]
-          exact ⟨r1, rfl, e2, e3, e4⟩
+          exact ⟨r1, rfl, e2, e3, e4, e5⟩
         · simp only [hr, if_false]
-          obtain ⟨r2, f1, f2, f3, f4⟩ := ih r1 hint (nread + ((abs r).take (lineStop (abs r) (abs r).length)).length) (acc ++ [(abs r).take (lineStop (abs r) (abs r).length)]) e3 e4
+          obtain ⟨r2, f1, f2, f3, f4, f5⟩ := ih r1 hint (nread + ((abs r).take (lineStop (abs r) (abs r).length)).length) (acc ++ [(abs r).take (lineStop (abs r) (abs r).length)]) e3 e4
           rw [e2] at f1 f2
-          exact ⟨r2, f1, f2, f3, f4⟩
+          exact ⟨r2, f1, f2, f3, f4, f5.trans e5⟩
       · simp only [hh, if_false]
-        obtain ⟨r2, f1, f2, f3, f4⟩ := ih r1 hint nread (acc ++ [(abs r).take (lineStop (abs r) (abs r).length)]) e3 e4
+        obtain ⟨r2, f1, f2, f3, f4, f5⟩ := ih r1 hint nread (acc ++ [(abs r).take (lineStop (abs r) (abs r).length)]) e3 e4
         rw [e2] at f1 f2
-        exact ⟨r2, f1, f2, f3, f4⟩
+        exact ⟨r2, f1, f2, f3, f4, f5.trans e5⟩
 
 /-- more fuel than there are bytes makes no difference -/
 theorem specLines_fuel : ∀ (f1 f2 : Nat) (A : Bytes) (hint nread : Int) (acc : List Bytes), A.length < f1 → A.length < f2 →
@@ -607,10 +621,385 @@ def linesOf (A : Bytes) (hint : Int) : List Bytes × Bytes := specLines (A.lengt
 /-- **`readlines(hint)`** returns exactly the lines of the flat cursor and leaves exactly the rest -/
 theorem readlines_refines (r : R σ) (hint : Int) (hinv : Inv r) (hpl : r.pos ≤ r.len) :
     ∃ r', readlines r hint = (some (linesOf (abs r) hint).1, r') ∧ abs r' = (linesOf (abs r) hint).2 ∧
-      Inv r' ∧ r'.pos ≤ r'.len := by
-  obtain ⟨r', e1, e2, e3, e4⟩ := readlinesLoop_refines (Source.bound r.src + r.buf.length + 3) r hint 0 [] hinv hpl
+      Inv r' ∧ r'.pos ≤ r'.len ∧ r'.chunk = r.chunk := by
+  obtain ⟨r', e1, e2, e3, e4, e5⟩ := readlinesLoop_refines (Source.bound r.src + r.buf.length + 3) r hint 0 [] hinv hpl
   have hf := specLines_fuel (Source.bound r.src + r.buf.length + 3) ((abs r).length + 1) (abs r) hint 0 []
     (fuel_enough r hinv hpl) (by omega)
   rw [hf] at e1 e2
-  exact ⟨r', e1, e2, e3, e4⟩
+  exact ⟨r', e1, e2, e3, e4, e5⟩
+end Rd
+
+/-! ## `consume_delimiter=True`: the `_read_until` loop with consumption = the loop without it + the peek-and-step tail -/
+namespace Rd
+variable {σ : Type} [Source σ] [LawfulSource σ]
+open LawfulSource (data readLen)
+
+/-- the `consume_delimiter=True` tail applied to the outcome of a non-consuming call -/
+def tailRes (d : Bytes) : Res × R σ → Res × R σ
+  | (.ok ret, r) => tailPeek r d ret
+  | x => x
+
+/-- `_read(s)` served from the buffer (and not handing out the whole buffer) just advances the position -/
+theorem readCore_advance (r : R σ) (s : Int) (hfit : s ≤ r.len - r.pos) (hnot : ¬ (s = r.len ∧ r.pos = 0)) :
+    (read' r s).2 = { r with pos := r.pos + s } := by
+  unfold read'
+  simp only [hfit, if_true]
+  have : (s == r.len && r.pos == 0) = false := by
+    cases h1 : (s == r.len) <;> cases h2 : (r.pos == 0) <;> simp_all
+  simp only [this, Bool.false_eq_true, if_false]
+
+/-- the two exits of `_read_until` that have located the delimiter (at buffer offset `q`), with `consume_delimiter=True`:
+    comparing the position with `q` is the same as peeking for the delimiter -/
+theorem found_consume (d A0 : Bytes) (r : R σ) (result : List Bytes) (have_ size : Int) (q : Nat)
+    (hd : d ≠ []) (hdc : (d.length : Int) ≤ r.chunk) (h : LInv d A0 r result have_ size)
+    (hq1 : r.pos.toNat ≤ q) (hq2 : occ d r.buf q) (hq3 : ∀ j, r.pos.toNat ≤ j → j < q → ¬ occ d r.buf j)
+    (delim : Option Bytes) (dp : Int) (hres : resolveDpos r delim dp = (q : Int)) :
+    finalizeRU r size result have_ (d.length : Int) delim dp none
+      = tailRes d (finalizeRU r size result have_ 0 delim dp none) := by
+  have hlen := h.inv.len_eq
+  have hp0 := h.inv.pos_nonneg
+  have hpl := h.pl
+  have hh0 := h.h0
+  have hhs := h.hsz
+  have hdl : 0 < d.length := List.length_pos_iff.mpr hd
+  obtain ⟨hq2a, hfit⟩ := (occ_iff d r.buf q hd).mp hq2
+  unfold finalizeRU
+  simp only [hres]
+  unfold capSize
+  have hge : ((q : Int) ≥ 0) := by omega
+  simp only [hge, if_true]
+  -- the amount read from the buffer
+  generalize hsdef : min size (have_ + (q : Int) - r.pos) = sz
+  have hs0 : 0 ≤ sz - have_ := by omega
+  have hs1 : sz - have_ ≤ (q : Int) - r.pos := by omega
+  have hadv : (read' r (sz - have_)).2 = { r with pos := r.pos + (sz - have_) } :=
+    readCore_advance r (sz - have_) (by omega) (by omega)
+  have hc : ((d.length : Int) != 0) = true := by
+    simp only [bne_iff_ne, ne_eq]; omega
+  have hqn : ¬ ((q : Int) < 0) := by omega
+  -- the peek at the new position
+  have hpeek : ∀ r2 : R σ, r2 = { r with pos := r.pos + (sz - have_) } →
+      peek r2 (d.length : Int) = ((r.buf.drop (r.pos + (sz - have_)).toNat).take d.length, r2) := by
+    intro r2 hr2
+    subst hr2
+    unfold peek
+    have h1 : (decide ((d.length : Int) < 0) || decide ((d.length : Int) > r.chunk)) = false := by
+      have a : ¬ ((d.length : Int) < 0) := by omega
+      have b : ¬ ((d.length : Int) > r.chunk) := by omega
+      simp only [a, b, decide_false, Bool.or_self]
+    simp only [h1, Bool.false_eq_true, if_false]
+    have h2 : ¬ (r.len - (r.pos + (sz - have_)) < (d.length : Int)) := by omega
+    simp only [h2, if_false]
+    rw [slice_nonneg _ _ _ (by omega) (by omega)]
+    have : (r.pos + (sz - have_) + (d.length : Int)).toNat - (r.pos + (sz - have_)).toNat = d.length := by omega
+    rw [this]
+  -- is the new position the delimiter?
+  have hcmp : ((r.buf.drop (r.pos + (sz - have_)).toNat).take d.length = d) ↔ r.pos + (sz - have_) = (q : Int) := by
+    constructor
+    · intro heq
+      by_cases hlt : r.pos + (sz - have_) < (q : Int)
+      · exfalso
+        apply hq3 (r.pos + (sz - have_)).toNat (by omega) (by omega)
+        rw [occ_iff _ _ _ hd]
+        exact ⟨heq, by omega⟩
+      · omega
+    · intro heq
+      have : (r.pos + (sz - have_)).toNat = q := by omega
+      rw [this]; exact hq2a
+  unfold finishRU
+  simp only [hc, if_true, hqn, if_false, bne_self_eq_false, Bool.false_eq_true]
+  by_cases hz : (have_ == 0) = true
+  · simp only [hz, if_true]
+    have hz0 : have_ = 0 := by simpa using hz
+    rw [hz0] at hadv hpeek hcmp
+    simp only [Int.sub_zero] at hadv hpeek hcmp
+    rcases hrd : read' r sz with ⟨ret, r2⟩
+    rw [hrd] at hadv
+    simp only at hadv
+    simp only [tailRes, tailPeek, hpeek r2 hadv]
+    by_cases hat : r.pos + sz = (q : Int)
+    · have e1 : (r2.pos != (q : Int)) = false := by rw [hadv]; simp [hat]
+      have e2 : ((r.buf.drop (r.pos + sz).toNat).take d.length != d) = false := by simp [hcmp.mpr hat]
+      simp only [e1, e2, Bool.false_eq_true, if_false]
+    · have e1 : (r2.pos != (q : Int)) = true := by rw [hadv]; simp [hat]
+      have e2 : ((r.buf.drop (r.pos + sz).toNat).take d.length != d) = true := by
+        simp only [bne_iff_ne, ne_eq]; intro hh; exact hat (hcmp.mp hh)
+      simp only [e1, e2, if_true]
+  · have hz' : (have_ == 0) = false := by simpa using hz
+    simp only [hz', Bool.false_eq_true, if_false]
+    rcases hrd : read' r (sz - have_) with ⟨x, r2⟩
+    rw [hrd] at hadv
+    simp only at hadv
+    simp only [tailRes, tailPeek, hpeek r2 hadv]
+    by_cases hat : r.pos + (sz - have_) = (q : Int)
+    · have e1 : (r2.pos != (q : Int)) = false := by rw [hadv]; simp [hat]
+      have e2 : ((r.buf.drop (r.pos + (sz - have_)).toNat).take d.length != d) = false := by simp [hcmp.mpr hat]
+      simp only [e1, e2, Bool.false_eq_true, if_false]
+    · have e1 : (r2.pos != (q : Int)) = true := by rw [hadv]; simp [hat]
+      have e2 : ((r.buf.drop (r.pos + (sz - have_)).toNat).take d.length != d) = true := by
+        simp only [bne_iff_ne, ne_eq]; intro hh; exact hat (hcmp.mp hh)
+      simp only [e1, e2, if_true]
+
+/-- the exits that finish without having located the delimiter: with `consume_delimiter=True` they are the non-consuming
+    finish followed by the peek-and-step tail (`finishRU_consume_peek`, lifted to `_finalize_read_until`) -/
+theorem notfound_consume (r r0 : R σ) (size : Int) (result : List Bytes) (have_ : Int) (d ret : Bytes)
+    (next : Option Bytes) (hdl : 0 < d.length) (hfind : find r.buf d r.pos = -1)
+    (h0 : finalizeRU r size result have_ 0 (some d) (-1) next = (.ok ret, r0)) :
+    finalizeRU r size result have_ (d.length : Int) (some d) (-1) next
+      = tailRes d (finalizeRU r size result have_ 0 (some d) (-1) next) := by
+  rw [h0]
+  unfold finalizeRU at h0 ⊢
+  rw [resolveDpos_search, hfind] at h0 ⊢
+  rw [finishRU_consume_peek _ _ _ _ _ _ _ (by omega) hdl, h0]
+  rfl
+
+/-- **the `_read_until` loop with `consume_delimiter=True`** is the loop without it followed by the tail -/
+theorem readUntilLoop_consume (d A0 : Bytes) (size : Int) (hd : d ≠ []) :
+    ∀ (fuel : Nat) (r : R σ) (result : List Bytes) (have_ : Int),
+      LInv d A0 r result have_ size → (d.length : Int) ≤ r.chunk → (avail r).length < fuel →
+      readUntilLoop fuel r d size (d.length : Int) result have_ = tailRes d (readUntilLoop fuel r d size 0 result have_) := by
+  intro fuel
+  induction fuel with
+  | zero => intro r result have_ h hc hf; omega
+  | succ fuel ih =>
+    intro r result have_ h hc hf
+    have hlen := h.inv.len_eq
+    have hp0 := h.inv.pos_nonneg
+    have hpl := h.pl
+    have hdl : 0 < d.length := List.length_pos_iff.mpr hd
+    rw [readUntilLoop, readUntilLoop]
+    rcases find_spec r.buf d r.pos hd hp0 (by omega) with ⟨hm, hno⟩ | ⟨q, hq, hq1, hq2, hq3⟩
+    · have hdn : (if r.len > r.pos then find r.buf d r.pos else -1) = -1 := by
+        split
+        · exact hm
+        · rfl
+      have hneg : ¬ ((-1 : Int) ≥ 0) := by omega
+      simp only [hdn, hneg, decide_false, Bool.and_false, Bool.false_eq_true, if_false]
+      by_cases henough : size < have_ + r.len - r.pos - ((d.length : Int) - 1)
+      · simp only [henough, if_true]
+        obtain ⟨r', e1, _⟩ := exit_enough_data d A0 r result have_ size hd h hm henough
+        exact notfound_consume r r' size result have_ d _ none hdl hm e1
+      · simp only [henough, if_false]
+        rcases hpr : performRead r r.chunk with ⟨nc, r1⟩
+        obtain ⟨p1, p2, p3, p4, p5, p6, p7, p8, p9⟩ := performRead_spec r r.chunk nc r1 h.inv.rem_nonneg hpr
+        obtain ⟨hinv1, hpl1⟩ := performRead_inv r r.chunk nc r1 h.inv hpl hpr
+        have hL2 := h.append nc r1 hpr
+        dsimp only
+        by_cases hrem : r1.rem = 0
+        · have hremb : (r1.rem == 0) = true := by simp [hrem]
+          simp only [hremb, if_true]
+          have hav : avail { r1 with len := r1.len + nc.length, buf := r1.buf ++ nc } = [] := by
+            show (data r1.src).take r1.rem.toNat = []
+            rw [hrem]; rfl
+          obtain ⟨r', e1, _⟩ := exit_all_buffered d A0 _ result have_ size hd hL2 hav
+          -- the delimiter may or may not be in the completed buffer
+          rcases find_spec (r1.buf ++ nc) d r1.pos hd hinv1.pos_nonneg
+              (by have := hL2.inv.len_eq; have := hL2.pl; simp only at *; omega) with ⟨fm, _⟩ | ⟨q, fq, fq1, fq2, fq3⟩
+          · exact notfound_consume _ r' size result have_ d _ none hdl fm e1
+          · exact found_consume d A0 { r1 with len := r1.len + nc.length, buf := r1.buf ++ nc } result have_ size q hd
+              (by show (d.length : Int) ≤ r1.chunk; rw [p7]; exact hc) hL2 fq1 fq2 fq3 (some d) (-1)
+              (by rw [resolveDpos_search]; exact fq)
+        · have hrem' : (r1.rem == 0) = false := by simpa using hrem
+          simp only [hrem', Bool.false_eq_true, if_false]
+          have hcp := h.inv.chunk_pos
+          have hncl : 0 < nc.length := by
+            have : ¬ ((nc.length : Int) < min r.chunk r.rem) := fun hlt => hrem (p8 hlt)
+            omega
+          have hfuel : (avail r1).length < fuel := by
+            have h1 : nc.length = min r.chunk.toNat (avail r).length := by rw [p1, List.length_take]
+            rw [p2, List.length_drop]; omega
+          by_cases hempty : r1.len ≤ r1.pos
+          · simp only [hempty, if_true]
+            obtain ⟨c1, c2, c3, c4, c5⟩ := replace_chunk r r.chunk nc r1 h.inv (Int.le_of_lt hcp) hpr
+            have hL : LInv d A0 { r1 with len := nc.length, pos := 0, buf := nc } result have_ size := by
+              refine ⟨c2, c3, h.h0, h.hsz, h.hA, h.res, ?_, h.noocc⟩
+              rw [c1, ← h.ab, abs_eq r h.inv hpl, drop_all_of_pos_eq r h.inv (by rw [← p5, ← p6]; exact hempty),
+                List.nil_append]
+            exact ih _ result have_ hL (by rw [c4]; exact hc) (by rw [c5]; exact hfuel)
+          · simp only [hempty, if_false]
+            have hne : r1.pos < r1.len := by omega
+            have hlen1 := hinv1.len_eq
+            have hp01 := hinv1.pos_nonneg
+            have hno1 : ∀ j, r1.pos.toNat ≤ j → ¬ occ d r1.buf j := by rw [p4, p5]; exact hno
+            rw [fragment_eq r1 d nc hinv1 hpl1 hdl]
+            have hffo := fragment_first_occ d r1.buf nc r1.pos.toNat hd (by omega) hno1
+            simp only at hffo
+            have hsearch :
+                ((if (d.length : Int) - 1 > 0 then
+                    find (r1.buf.drop (max (r1.buf.length - (d.length - 1)) r1.pos.toNat) ++ nc.take (d.length - 1)) d 0
+                  else -1) = -1 ∧
+                  ∀ j, ¬ occ d (r1.buf.drop (max (r1.buf.length - (d.length - 1)) r1.pos.toNat) ++ nc.take (d.length - 1)) j) ∨
+                (∃ q' : Nat, (d.length : Int) - 1 > 0 ∧
+                  (if (d.length : Int) - 1 > 0 then
+                    find (r1.buf.drop (max (r1.buf.length - (d.length - 1)) r1.pos.toNat) ++ nc.take (d.length - 1)) d 0
+                  else -1) = (q' : Int) ∧
+                  occ d (r1.buf.drop (max (r1.buf.length - (d.length - 1)) r1.pos.toNat) ++ nc.take (d.length - 1)) q' ∧
+                  ∀ j, j < q' → ¬ occ d (r1.buf.drop (max (r1.buf.length - (d.length - 1)) r1.pos.toNat) ++ nc.take (d.length - 1)) j) := by
+              by_cases hdl1 : (d.length : Int) - 1 > 0
+              · simp only [hdl1, if_true]
+                rcases find_spec (r1.buf.drop (max (r1.buf.length - (d.length - 1)) r1.pos.toNat) ++ nc.take (d.length - 1))
+                    d 0 hd (Int.le_refl 0) (by omega) with ⟨f1, f2⟩ | ⟨q', f1, _, f3, f4⟩
+                · exact Or.inl ⟨f1, fun j => f2 j (by simp)⟩
+                · exact Or.inr ⟨q', trivial, f1, f3, fun j hj => f4 j (by simp) hj⟩
+              · simp only [hdl1, if_false]
+                left
+                refine ⟨trivial, fun j hj => ?_⟩
+                have hl1 : d.length - 1 = 0 := by omega
+                have := occ_lt_length d _ j hd hj
+                rw [hl1] at this
+                simp only [List.take_zero, List.append_nil, List.length_drop, Nat.sub_zero] at this
+                omega
+            rcases hsearch with ⟨hdp, hfrag⟩ | ⟨q', hdl1, hdp, hfq, hfirst⟩
+            · rw [hdp]
+              simp only [hneg, decide_false, Bool.and_false, Bool.false_eq_true, if_false]
+              have hthru := no_occ_through_buffer d A0 r result have_ size nc hd hc h p1 hno
+                (by rw [← p4, ← p5]; exact hfrag)
+              by_cases hfull : have_ + r1.len - r1.pos ≥ size
+              · simp only [hfull, if_true]
+                have hst : stopAt d A0 size.toNat = size.toNat := by
+                  apply stopAt_no_occ_before d A0 _ hd
+                  · intro j hj; exact hthru j (by have := h.h0; omega)
+                  · rw [h.A0_length]; have := h.h0; omega
+                have hfind1 : find r1.buf d r1.pos = -1 := by rw [p4, p5]; exact hm
+                have hex : ∃ r', finalizeRU r1 size result have_ 0 (some d) (-1) (some nc)
+                    = (.ok (A0.take size.toNat), r') := by
+                  unfold finalizeRU
+                  rw [resolveDpos_search, hfind1]
+                  unfold capSize
+                  simp only [hneg, if_false]
+                  obtain ⟨r', e1, _⟩ := finish_next d A0 r result have_ size nc r1 (some d) (-1) h hpr (by omega)
+                  exact ⟨r', e1⟩
+                obtain ⟨r', e1⟩ := hex
+                exact notfound_consume r1 r' size result have_ d _ (some nc) hdl hfind1 e1
+              · simp only [hfull, if_false]
+                obtain ⟨c1, c2, c3, c4, c5⟩ := replace_chunk r r.chunk nc r1 h.inv (Int.le_of_lt hcp) hpr
+                obtain ⟨t1, t2⟩ := h.take_through
+                have hx : (if r1.pos > 0 then sliceFrom r1.buf r1.pos else r1.buf) = r.buf.drop r.pos.toNat := by
+                  rw [p4, p5]
+                  split
+                  · exact sliceFrom_nonneg _ _ hp0
+                  · have : r.pos.toNat = 0 := by omega
+                    rw [this, List.drop_zero]
+                have hL : LInv d A0 { r1 with len := nc.length, pos := 0, buf := nc }
+                    (result ++ [if r1.pos > 0 then sliceFrom r1.buf r1.pos else r1.buf])
+                    (have_ + r1.len - r1.pos) size := by
+                  refine ⟨c2, c3, by have := h.h0; omega, by omega, ?_, ?_, ?_, ?_⟩
+                  · rw [h.A0_length, p5, p6]; have := h.h0; omega
+                  · rw [hx, List.flatten_append, h.res, p5, p6, t1]; simp
+                  · rw [c1, p5, p6, t2]
+                  · intro j hj; exact hthru j (by rw [p5, p6] at hj; have := h.h0; omega)
+                exact ih _ _ _ hL (by rw [c4]; exact hc) (by rw [c5]; exact hfuel)
+            · rw [hdp]
+              have hq0 : ((q' : Int) ≥ 0) := by omega
+              simp only [hdl1, hq0, decide_true, Bool.and_self, if_true]
+              obtain ⟨g1, g2⟩ := (hffo q').mp hfq
+              exact found_consume d A0 { r1 with len := r1.len + nc.length, buf := r1.buf ++ nc } result have_ size
+                (max (r1.buf.length - (d.length - 1)) r1.pos.toNat + q') hd
+                (by show (d.length : Int) ≤ r1.chunk; rw [p7]; exact hc) hL2
+                (by show r1.pos.toNat ≤ _; omega) g1
+                (by
+                  show ∀ j, r1.pos.toNat ≤ j → j < _ → ¬ occ d (r1.buf ++ nc) j
+                  intro j hj1 hj2 hocc
+                  by_cases hin : j + d.length ≤ r1.buf.length
+                  · rw [occ_append_left _ _ _ _ hd hin] at hocc
+                    exact hno1 j hj1 hocc
+                  · have hjo : max (r1.buf.length - (d.length - 1)) r1.pos.toNat ≤ j := by omega
+                    have hidx : max (r1.buf.length - (d.length - 1)) r1.pos.toNat +
+                        (j - max (r1.buf.length - (d.length - 1)) r1.pos.toNat) = j := by omega
+                    have := (hffo (j - max (r1.buf.length - (d.length - 1)) r1.pos.toNat)).mpr
+                      ⟨by rw [hidx]; exact hocc, by rw [hidx]; omega⟩
+                    exact hfirst _ (by omega) this)
+                (some d) ((q' : Int) + max (r1.len - ((d.length : Int) - 1)) r1.pos)
+                (by
+                  unfold resolveDpos
+                  have : ¬ ((q' : Int) + max (r1.len - ((d.length : Int) - 1)) r1.pos < 0) := by omega
+                  simp only [this, if_false]
+                  omega)
+    · have hfit := ((occ_iff d r.buf q hd).mp hq2).2
+      have hgt : r.len > r.pos := by omega
+      have hq0 : ((q : Int) ≥ 0) := by omega
+      simp only [hgt, if_true, hq, hq0, decide_true, Bool.and_self]
+      exact found_consume d A0 r result have_ size q hd hc h hq1 hq2 hq3 none (q : Int) (resolveDpos_given r q)
+
+/-- **`_read_until(d, size, consume_delimiter=True)`** = the non-consuming call followed by the peek-and-step tail -/
+theorem readUntilCore_consume_eq (r : R σ) (d : Bytes) (size : Int) (hinv : Inv r) (hpl : r.pos ≤ r.len) (hs : 0 ≤ size)
+    (hd : d ≠ []) (hdc : (d.length : Int) ≤ r.chunk) :
+    readUntil' r d size true = tailRes d (readUntil' r d size false) := by
+  have hdl : 0 < d.length := List.length_pos_iff.mpr hd
+  unfold readUntil'
+  have hok : (!(decide (0 ≤ (d.length : Int) - 1) && decide ((d.length : Int) - 1 < r.chunk))) = false := by
+    have a : (0 : Int) ≤ (d.length : Int) - 1 := by omega
+    have b : (d.length : Int) - 1 < r.chunk := by omega
+    simp only [a, b, decide_true, Bool.and_self, Bool.not_true]
+  have hcons : ((d.length : Int) - 1 + 1) = (d.length : Int) := by omega
+  simp only [hok, Bool.false_eq_true, if_false, ↓reduceIte, hcons]
+  by_cases hmod : (size % r.chunk == 0) = true
+  · simp only [hmod, if_true]
+    obtain ⟨f1, f2, f3, f4⟩ := fillBuffer_abs r hinv hpl
+    exact readUntilLoop_consume d (abs r) size hd
+      (Source.bound (fillBuffer r).src + (fillBuffer r).buf.length + 3) (fillBuffer r) [] 0
+      (by rw [← f1]; exact LInv.start d _ size f2 f3 hs) (by rw [f4]; exact hdc)
+      (by have := avail_length_le (fillBuffer r); omega)
+  · simp only [hmod, Bool.false_eq_true, if_false]
+    exact readUntilLoop_consume d (abs r) size hd (Source.bound r.src + r.buf.length + 3) r [] 0
+      (LInv.start d r size hinv hpl hs) hdc (by have := avail_length_le r; omega)
+
+/-- **`_read_until(d, size, consume_delimiter=True)` refines the flat cursor**: the same bytes as without consumption; if the
+    cursor is then at the delimiter it steps over it, otherwise `DelimiterError` with the cursor just behind the bytes read -/
+theorem readUntilCore_consume_refines (r : R σ) (d : Bytes) (size : Int) (hinv : Inv r) (hpl : r.pos ≤ r.len) (hs : 0 ≤ size)
+    (hd : d ≠ []) (hdc : (d.length : Int) ≤ r.chunk) :
+    let k := stopAt d (abs r) size.toNat
+    let out := readUntil' r d size true
+    ((((abs r).drop k).take d.length = d) →
+      out.1 = .ok ((abs r).take k) ∧ abs out.2 = (abs r).drop (k + d.length) ∧ Inv out.2 ∧ out.2.pos ≤ out.2.len ∧
+        out.2.chunk = r.chunk) ∧
+    ((((abs r).drop k).take d.length ≠ d) →
+      out.1 = .delimErr ∧ abs out.2 = (abs r).drop k ∧ Inv out.2 ∧ out.2.pos ≤ out.2.len ∧ out.2.chunk = r.chunk) := by
+  intro k out
+  obtain ⟨r1, e1, e2, e3, e4, e5⟩ := readUntil'_refines r d size hinv hpl hs hd hdc
+  have hout : out = tailPeek r1 d ((abs r).take k) := by
+    simp only [out]
+    rw [readUntilCore_consume_eq r d size hinv hpl hs hd hdc, e1]
+    rfl
+  have hsp := tailPeek_spec r1 d ((abs r).take k) e3 e4 (by rw [e5]; exact hdc)
+  have hch := (tailPeek_chunk r1 d ((abs r).take k) e3 e4).trans e5
+  rw [e2] at hsp
+  rw [hout]
+  constructor
+  · intro h
+    obtain ⟨a, b, c, dd⟩ := hsp.1 h
+    exact ⟨a, by rw [b, List.drop_drop], c, dd, hch⟩
+  · intro h
+    obtain ⟨a, b, c, dd⟩ := hsp.2 h
+    exact ⟨a, b, c, dd, hch⟩
+
+/-- **`read_until(d, size, consume_delimiter=True)`**, size `None`/`-1`/≥ 0, both branches -/
+theorem readUntil_consume_refines (r : R σ) (d : Bytes) (size : Option Int) (hinv : Inv r) (hpl : r.pos ≤ r.len)
+    (hs : ∀ s, size = some s → s = -1 ∨ 0 ≤ s) (hd : d ≠ []) (hdc : (d.length : Int) ≤ r.chunk) :
+    let k := stopAt d (abs r) (want (abs r) size)
+    let out := readUntil r d size true
+    ((((abs r).drop k).take d.length = d) →
+      out.1 = .ok ((abs r).take k) ∧ abs out.2 = (abs r).drop (k + d.length) ∧ Inv out.2 ∧ out.2.pos ≤ out.2.len ∧
+        out.2.chunk = r.chunk) ∧
+    ((((abs r).drop k).take d.length ≠ d) →
+      out.1 = .delimErr ∧ abs out.2 = (abs r).drop k ∧ Inv out.2 ∧ out.2.pos ≤ out.2.len ∧ out.2.chunk = r.chunk) := by
+  intro k out
+  have h0 := (take_normalize r size hinv hpl hs).1
+  have hk : stopAt d (abs r) (normalizeSize r size).toNat = k := stopAt_normalize r d size hinv hpl hd hs
+  by_cases hj : normalizeSize r size ≤ maxJoin r
+  · have hout : out = readUntil' r d (normalizeSize r size) true := by
+      simp only [out]; unfold readUntil; simp only [hj, decide_true, if_true]
+    have := readUntilCore_consume_refines r d (normalizeSize r size) hinv hpl h0 hd hdc
+    simp only [hk] at this
+    rw [hout]; exact this
+  · have hout : out = pipeUntil r d true (some (normalizeSize r size)) := by
+      simp only [out]; unfold readUntil; simp only [hj, decide_false, Bool.false_eq_true, if_false]
+    have hw : want (abs r) (some (normalizeSize r size)) = (normalizeSize r size).toNat := by
+      unfold want
+      by_cases h : normalizeSize r size = -1
+      · omega
+      · simp [h]
+    have := pipeUntil_consume_refines r d (some (normalizeSize r size)) hinv hpl (fun s h => by cases h; right; exact h0) hd hdc
+    simp only [hw, hk] at this
+    rw [hout]; exact this
 end Rd
